@@ -24,7 +24,31 @@ var (
 
 type panicValue struct{ id int }
 
-func acceptable(err error) bool { return err == nil || err == errAcc }
+// predicate builds the caller's acceptable-predicate of a call kind from the specification's
+// description of it (Breaker.tla: the set of results it accepts, bit 1 = nil, bit 2 = errAcc,
+// bit 4 = errUnacc).  It is a function of the error VALUE only, e.g. 6 rejects nil.
+func predicate(mask int) breaker.Acceptable {
+	return func(err error) bool {
+		switch err {
+		case nil:
+			return mask&1 != 0
+		case errAcc:
+			return mask&2 != 0
+		case errUnacc:
+			return mask&4 != 0
+		}
+		return false // an error the protected function never returns
+	}
+}
+
+// mix is a small integer hash (splitmix64 finalizer): seeded choices must not correlate with
+// the position of a call in its burst.
+func mix(x uint64) uint64 {
+	x += 0x9e3779b97f4a7c15
+	x = (x ^ (x >> 30)) * 0xbf58476d1ce4e5b9
+	x = (x ^ (x >> 27)) * 0x94d049bb133111eb
+	return x ^ (x >> 31)
+}
 
 func errLabel(err error) string {
 	switch err {
@@ -48,6 +72,7 @@ type coreTarget struct {
 	ncalls  int
 	mu      sync.Mutex
 	seed    int64
+	idx     int
 }
 
 func (t *coreTarget) real(name string) string { return t.prefix + name }
@@ -80,14 +105,15 @@ func (t *coreTarget) doWith(name string, c verifc01.Call, onReq func(), onFb fun
 			t.private[name] = b
 		}
 	} else {
-		// both ways into the registry are the same breaker: alternate (seeded)
-		viaPkg = (int64(ncalls)+t.seed)%2 == 0
+		// both ways into the registry are the same breaker: pick one (seeded)
+		viaPkg = mix(uint64(t.seed)*1000003+uint64(t.idx)*7919+uint64(ncalls))&1 == 0
 		if !viaPkg {
 			b = breaker.Get(t.real(name))
 		}
 	}
 	t.mu.Unlock()
 	pv := &panicValue{ncalls}
+	acceptable := predicate(c.N)
 	req := func() error {
 		o.Req++
 		if onReq != nil {
@@ -190,6 +216,6 @@ func TestVerifC01Core(t *testing.T) {
 	pid := os.Getpid()
 	seed := kit.Seed()
 	verifc01.Run(t, func(i int) verifc01.Target {
-		return &coreTarget{prefix: fmt.Sprintf("c01/%d/%d/", pid, i), seed: seed}
+		return &coreTarget{prefix: fmt.Sprintf("c01/%d/%d/", pid, i), seed: seed, idx: i}
 	})
 }
